@@ -4,4 +4,5 @@ CONSTANTS
   MaxLen <- MC_MaxLen
   Routes <- MC_Routes
   Attrs <- MC_Attrs
+  Methods <- MC_Methods
 INVARIANT BogusFirstWins
